@@ -1640,7 +1640,9 @@ func genSrvSoup(p *prng, thorough bool, w *bufio.Writer) {
 	}
 	// the per-request timeout (ReadTimeout) fires while requests are in every stage: handler running, request half
 	// received, response held back by flow control. Afterwards the stream loop must still be alive: a later request is
-	// served, the connection ends cleanly. (The model has no timer: after `sleep` only the monitors speak.)
+	// served, the connection ends cleanly. (The model has no timer: after `sleep` only the monitors speak. The timeout is 400 ms
+	// so that no step before the `sleep` takes that long even on a loaded machine: with 25 ms the thorough tier once saw the
+	// timer fire inside a `done` step.)
 	timeouts := 6
 	if thorough {
 		timeouts = 40
@@ -1654,7 +1656,7 @@ func genSrvSoup(p *prng, thorough bool, w *bufio.Writer) {
 		g.enc = newPeerEnc()
 		g.next = 1
 		g.gaugeEach = false
-		g.line("srv %s new mcs=8 mhl=0 mrb=0 rt=25", g.id)
+		g.line("srv %s new mcs=8 mhl=0 mrb=0 rt=400", g.id)
 		g.settings()
 		var running []uint32
 		for k := 1 + p.intn(3); k > 0; k-- {
@@ -1671,7 +1673,7 @@ func genSrvSoup(p *prng, thorough bool, w *bufio.Writer) {
 				g.done(sid, respGen{status: 200, body: "pat:500"})
 			}
 		}
-		g.line("srv %s sleep 80", g.id)
+		g.line("srv %s sleep 900", g.id)
 		// life goes on
 		sid := g.sid()
 		g.frame(frameBytes(1, 5, sid, g.hdrBlock(true)))
